@@ -3,6 +3,7 @@
 package props
 
 import (
+	"context"
 	"crypto/ed25519"
 	"fmt"
 	"strings"
@@ -24,13 +25,14 @@ import (
 // that carries a value must verify (seq, v and sig of one and the same item).
 
 type g2Scn struct {
-	Name string
-	Gets int
-	Puts int
+	Name    string
+	Gets    int
+	Puts    int
+	APIPuts int // Server.Put calls (the client API stores the item in the local store before it sends it)
 }
 
 func g2Scenarios() []g2Scn {
-	return []g2Scn{{"get-put", 1, 1}, {"get-put-get", 2, 1}, {"get-put-put", 1, 2}}
+	return []g2Scn{{"get-put", 1, 1, 0}, {"get-put-get", 2, 1, 0}, {"get-put-put", 1, 2, 0}, {"get-apiput", 1, 0, 1}, {"get-apiput-get", 2, 0, 1}}
 }
 
 func runG2(t *testing.T, scn *g2Scn, prefix []int) (x explore.Exec) {
@@ -47,13 +49,18 @@ func runG2(t *testing.T, scn *g2Scn, prefix []int) (x explore.Exec) {
 		}
 		tok := y.fetchToken(srcV4, "get")
 		y.Deliver(srcV4, put(1, "value-one", tok))
+		// the stored item has been served once before the race starts
+		y.Deliver(srcV6, sim.Query("warm", "get", sim.M{"id": sim.IDStr(peerID), "target": sim.IDStr(target)}))
 		y.Take()
 		synctest.Wait()
+		nwarm := y.Conn.NumWrites()
 		c = newE2(prefix, 600)
 		defer c.done()
 		y.Conn.BeforeWrite = func() { verifsched.Point("sock-write") }
 		done := 0
-		want := scn.Gets + scn.Puts
+		want := scn.Gets + scn.Puts + scn.APIPuts
+		apiCtx, apiCancel := context.WithCancel(context.Background())
+		defer apiCancel()
 		c.stateKey = func() string { return fmt.Sprintf("done=%d w=%d", done, y.Conn.NumWrites()) }
 		for i := 0; i < scn.Gets; i++ {
 			i := i
@@ -73,12 +80,23 @@ func runG2(t *testing.T, scn *g2Scn, prefix []int) (x explore.Exec) {
 				done++
 			}()
 		}
+		for i := 0; i < scn.APIPuts; i++ {
+			i := i
+			go func() {
+				verifsched.Tag(fmt.Sprintf("h:apiput%d", i))
+				verifsched.Point("api")
+				it := c13Item(int64(2+i), 0, fmt.Sprintf("value-%d", 2+i))
+				done++ // the call itself only returns when its query to the (silent) remote node is given up
+				y.S.Put(apiCtx, dht.NewAddr(sim.UDP4(61, 9, 9, 9, 6199)), bep44.Put{V: it.V, K: &it.K, Sig: it.Sig, Seq: it.Seq}, "remote-token", dht.QueryRateLimiting{})
+			}()
+		}
 		if !c.loop(nil) {
 			if c.err == "" {
 				viol = "horizon: the scenario does not finish"
 			}
 			return
 		}
+		apiCancel()
 		if _, bl := c.S.Snapshot(); len(bl) > 0 || done < want {
 			viol = "deadlock: the datagrams were not all processed"
 			return
@@ -87,7 +105,7 @@ func runG2(t *testing.T, scn *g2Scn, prefix []int) (x explore.Exec) {
 		verifsched.Install(nil)
 		synctest.Wait()
 		nget := 0
-		for _, o := range DecodeWrites(y.Conn.Writes()) {
+		for _, o := range DecodeWrites(y.Conn.WritesSince(nwarm)) {
 			if o.Y() != "r" || !strings.HasPrefix(o.T(), "g") {
 				continue
 			}
